@@ -82,7 +82,8 @@ type AUp struct {
 // AEvent is a timed event of the driver
 type AEvent struct {
 	AtMs int    `json:"at_ms"`
-	Kind string `json:"kind"` // restart | sigusr1 | sighup_valid | sighup_invalid | sighup_incompatible
+	Kind string `json:"kind"`        // restart | sigusr1 | sighup_* | clock_back
+	N    int    `json:"n,omitempty"` // clock_back: milliseconds
 }
 
 // AScenario is one world-A run
@@ -625,6 +626,26 @@ func (w *worldA) tweak(r *simrt.Rand, s *AScenario, end int) {
 		if bt := burstTimes(s); len(bt) > 0 {
 			for i, n := 0, 1+r.Intn(2); i < n; i++ {
 				s.Events = append(s.Events, AEvent{AtMs: bt[r.Intn(len(bt))] + []int{0, 0, 1, 5, 600}[r.Intn(5)], Kind: "restart"})
+			}
+			if r.Bool(25) {
+				// the wall clock steps back between two bursts: chunk ids are made from it, and resending and recovery order by id
+				at := bt[r.Intn(len(bt))] + 1
+				s.Events = append(s.Events, AEvent{AtMs: at, Kind: "clock_back", N: []int{1, 50, 2000, 60000}[r.Intn(4)]})
+				// Ids of one generator stay ordered over a clock step (repair 27); a new generator after a restart starts from the
+				// stepped clock, and a SECOND restart would then sort old and new files by id. Persisting the last id over restarts is
+				// not something the code attempts (DESIGN §11.2b): at most one restart follows the step.
+				var kept []AEvent
+				after := 0
+				for _, ev := range s.Events {
+					if ev.Kind == "restart" && ev.AtMs >= at {
+						after++
+						if after > 1 {
+							continue
+						}
+					}
+					kept = append(kept, ev)
+				}
+				s.Events = kept
 			}
 		}
 	case "c06":
@@ -1327,6 +1348,10 @@ func (r *aRun) drive() {
 			if !r.startAgent() {
 				return
 			}
+		case "clock_back":
+			// the wall clock is stepped back (NTP, VM resume); chunk ids are made from it
+			simrt.StepWallClock(-ms(ev.N))
+			r.out.fault("wall_clock_stepped_back", 1)
 		case "sigusr1":
 			if simsignal.Deliver(syscall.SIGUSR1) > 0 {
 				r.out.fault("sigusr1_delivered", 1)
